@@ -148,6 +148,18 @@ fn special_tags_init() -> Vec<u32> {
     ] {
         v.push(u32::from_be_bytes(*t));
     }
+    // every table tag the OpenType, AAT and Graphite registries define: a builder may
+    // special-case any of them (Apple's `bhed` is a `head` twin for bitmap-only fonts)
+    for t in [
+        b"avar", b"BASE", b"CBDT", b"CBLC", b"COLR", b"CPAL", b"cvar", b"EBDT", b"EBLC", b"EBSC", b"fvar", b"gvar", b"HVAR",
+        b"JSTF", b"MATH", b"MERG", b"meta", b"MVAR", b"sbix", b"STAT", b"SVG ", b"vhea", b"vmtx", b"VORG", b"VVAR", b"acnt",
+        b"ankr", b"bdat", b"bhed", b"bloc", b"bsln", b"fdsc", b"feat", b"fmtx", b"fond", b"gcid", b"just", b"kerx", b"lcar",
+        b"ltag", b"mort", b"morx", b"opbd", b"prop", b"trak", b"xref", b"Zapf", b"Silf", b"Glat", b"Gloc", b"Feat", b"Sill",
+        b"IFT ", b"IFTX", b"TSI0", b"TSI1", b"TSI5", b"Debg", b"FFTM", b"PfEd", b"BDF ", b"typ1", b"true", b"OTTO", b"ttcf",
+        b"wOFF", b"wOF2",
+    ] {
+        v.push(u32::from_be_bytes(*t));
+    }
     v.extend_from_slice(&[0, 1, 0xFFFF_FFFF, 0xFFFF_FFFE, 0x8000_0000, 0x7FFF_FFFF, 0x0000_0100, 0xFF00_0000]);
     v.sort_unstable();
     v.dedup();
